@@ -108,6 +108,7 @@ Definition Inv (s : st) (L : led) : Prop :=
   cwin L = climit s - unacked s /\
   0 <= unacked s /\ (unacked s < climit s / 4 \/ unacked s = 0) /\
   0 <= want L /\ 0 <= deliv L - readb L /\
+  sshrunk L = false /\ cdead L = false /\
   (ldead L = false -> SInv s L).
 
 Lemma inv_init cfg s : cfg_ok cfg = true -> init cfg = Some s -> Inv s (linit cfg).
@@ -172,10 +173,10 @@ Lemma step_ping i s L o s' :
   Inv s L -> stepk s OPing = (o, s') ->
   exists L', lstepk L OPing o = Some L' /\ Inv s' L' /\ okc (clauses_k i L OPing o L').
 Proof.
-  intros HI H. destruct s as [l p u d cl un dd]. destruct L as [a r ca cr lm clm dv rb w ld aj bm].
+  intros HI H. destruct s as [l p u d cl un dd]. destruct L as [a r ca cr lm clm dv rb w ld aj bm sk cd].
   cbn in H. inversion H; subst; clear H.
-  unfold Inv in HI; cbn in HI. destruct HI as (Hd & Hcl & Hclr & Hcw & Hun & Hun2 & Hw & Hur & HS).
-  subst dd cl. destruct ld.
+  unfold Inv in HI; cbn in HI. destruct HI as (Hd & Hcl & Hclr & Hcw & Hun & Hun2 & Hw & Hur & Hsk & Hcd & HS).
+  subst dd cl sk cd. destruct ld.
   - finish.
   - specialize (HS eq_refl). unfold SInv in HS; cbn in HS. finish.
 Qed.
@@ -184,9 +185,9 @@ Lemma step_new i s L n o s' :
   Inv s L -> opk_ok L (ONew n) = true -> stepk s (ONew n) = (o, s') ->
   exists L', lstepk L (ONew n) o = Some L' /\ Inv s' L' /\ okc (clauses_k i L (ONew n) o L').
 Proof.
-  intros HI Hok H. destruct s as [l p u d cl un dd]. destruct L as [a r ca cr lm clm dv rb w ld aj bm].
-  unfold Inv in HI; cbn in HI. destruct HI as (Hd & Hcl & Hclr & Hcw & Hun & Hun2 & Hw & Hur & HS).
-  subst dd cl. cbn in Hok. consts.
+  intros HI Hok H. destruct s as [l p u d cl un dd]. destruct L as [a r ca cr lm clm dv rb w ld aj bm sk cd].
+  unfold Inv in HI; cbn in HI. destruct HI as (Hd & Hcl & Hclr & Hcw & Hun & Hun2 & Hw & Hur & Hsk & Hcd & HS).
+  subst dd cl sk cd. cbn in Hok. consts.
   unfold stepk, tr_newLimit, in_newLimit in H. rewrite (u32_small n) in H by lia. cbn in H.
   destruct ld; cbn in H.
   - rewrite (u32_small (n - clm)) in H by lia. inversion H; subst; clear H. finish.
@@ -200,9 +201,9 @@ Lemma step_req i s L n o s' :
   Inv s L -> opk_ok L (OReq n) = true -> stepk s (OReq n) = (o, s') ->
   exists L', lstepk L (OReq n) o = Some L' /\ Inv s' L' /\ okc (clauses_k i L (OReq n) o L').
 Proof.
-  intros HI Hok H. destruct s as [l p u d cl un dd]. destruct L as [a r ca cr lm clm dv rb w ld aj bm].
-  unfold Inv in HI; cbn in HI. destruct HI as (Hd & Hcl & Hclr & Hcw & Hun & Hun2 & Hw & Hur & HS).
-  subst dd cl. cbn in Hok. consts.
+  intros HI Hok H. destruct s as [l p u d cl un dd]. destruct L as [a r ca cr lm clm dv rb w ld aj bm sk cd].
+  unfold Inv in HI; cbn in HI. destruct HI as (Hd & Hcl & Hclr & Hcw & Hun & Hun2 & Hw & Hur & Hsk & Hcd & HS).
+  subst dd cl sk cd. cbn in Hok. consts.
   unfold stepk in H. rewrite (u32_small n) in H by lia. cbn [dead] in H.
   destruct ld.
   - cbn in H. inversion H; subst; clear H. finish.
@@ -217,9 +218,9 @@ Lemma step_read i s L k o s' :
   Inv s L -> opk_ok L (ORead k) = true -> stepk s (ORead k) = (o, s') ->
   exists L', lstepk L (ORead k) o = Some L' /\ Inv s' L' /\ okc (clauses_k i L (ORead k) o L').
 Proof.
-  intros HI Hok H. destruct s as [l p u d cl un dd]. destruct L as [a r ca cr lm clm dv rb w ld aj bm].
-  unfold Inv in HI; cbn in HI. destruct HI as (Hd & Hcl & Hclr & Hcw & Hun & Hun2 & Hw & Hur & HS).
-  subst dd cl. cbn in Hok. consts.
+  intros HI Hok H. destruct s as [l p u d cl un dd]. destruct L as [a r ca cr lm clm dv rb w ld aj bm sk cd].
+  unfold Inv in HI; cbn in HI. destruct HI as (Hd & Hcl & Hclr & Hcw & Hun & Hun2 & Hw & Hur & Hsk & Hcd & HS).
+  subst dd cl sk cd. cbn in Hok. consts.
   unfold stepk in H. cbn [dead] in H.
   destruct ld.
   - cbn in H. inversion H; subst; clear H. finish.
@@ -235,9 +236,9 @@ Lemma step_data i s L size pad o s' :
   exists L', lstepk L (OData size pad) o = Some L' /\ Inv s' L' /\
              okc (clauses_k i L (OData size pad) o L').
 Proof.
-  intros HI Hok H. destruct s as [l p u d cl un dd]. destruct L as [a r ca cr lm clm dv rb w ld aj bm].
-  unfold Inv in HI; cbn in HI. destruct HI as (Hd & Hcl & Hclr & Hcw & Hun & Hun2 & Hw & Hur & HS).
-  subst dd cl. cbn in Hok. consts.
+  intros HI Hok H. destruct s as [l p u d cl un dd]. destruct L as [a r ca cr lm clm dv rb w ld aj bm sk cd].
+  unfold Inv in HI; cbn in HI. destruct HI as (Hd & Hcl & Hclr & Hcw & Hun & Hun2 & Hw & Hur & Hsk & Hcd & HS).
+  subst dd cl sk cd. cbn in Hok. consts.
   unfold stepk in H. consts. rewrite (u32_small size) in H by lia. rewrite (u32_small pad) in H by lia.
   replace ((pad >? size) || (size >=? 16777216)) with false in H by lia.
   rewrite tr_onData_eq in H by (cbn; dlia). cbn [unacked climit limit pd pu delta dead] in H.
@@ -287,6 +288,14 @@ Qed.
 
 (* ---------- bridge: the predicate evaluated on implementation traces holds on model traces ---------- *)
 
+Lemma op_ok_pre s L op : Inv s L -> op_ok L op = true -> op_pre L op && negb (cdead L) = true.
+Proof.
+  intros HI. unfold Inv in HI.
+  destruct HI as (Hd & Hcl & Hclr & Hcw & Hun & Hun2 & Hw & Hur & Hsk & Hcd & HS).
+  rewrite Hcd. unfold op_ok, op_pre. destruct (decode_op op) as [k|]; [|discriminate].
+  destruct k; cbn; intros H; rewrite ?H; try reflexivity. consts. lia.
+Qed.
+
 Lemma trace_ok : forall ops s L i obs,
   Inv s L -> run_from s ops = Some obs -> gate_from L ops obs = true ->
   okc (clauses_from i L ops obs).
@@ -297,7 +306,7 @@ Proof.
     destruct (run_from s' r) as [os|] eqn:Er; [|discriminate]. inversion Hr; subst obs; clear Hr.
     cbn in Hg. apply andb_prop in Hg. destruct Hg as [Hok Hg].
     destruct (step_inv i s L op o s' HI Hok Es) as (L' & HL & HI' & Hc).
-    rewrite HL in Hg. cbn [clauses_from]. rewrite Hok, HL.
+    rewrite HL in Hg. cbn [clauses_from]. rewrite (op_ok_pre s L op HI Hok), HL.
     apply okc_app; [exact Hc|]. eapply IH; eauto.
 Qed.
 
@@ -360,7 +369,7 @@ Lemma ledger_exact cfg ops s L : fin cfg ops = Some (s, L) ->
   (ldead L = false -> win L = limit s + delta s - (pd s + pu s) /\ pd s = deliv L - readb L /\ limit s = lim L).
 Proof.
   intros H. apply fin_inv in H. unfold Inv in H.
-  destruct H as (Hd & Hcl & Hclr & Hcw & Hun & Hun2 & Hw & Hur & HS). split; [exact Hcw|].
+  destruct H as (Hd & Hcl & Hclr & Hcw & Hun & Hun2 & Hw & Hur & Hsk & Hcd & HS). split; [exact Hcw|].
   intros Hl. specialize (HS Hl). unfold SInv in HS.
   destruct HS as (H1 & H2 & H3 & H4 & H5 & H6 & H7 & H8 & H9 & H10 & H11 & H12 & H13). repeat split; lia.
 Qed.
@@ -375,9 +384,9 @@ Lemma data_verdict cfg ops s L size pad o s' :
      (err = 1 /\ dead s' = true /\ win L < size /\ swu = 0)).
 Proof.
   intros Hf Hld Hok Hsz H. apply fin_inv in Hf. rename Hf into HI.
-  destruct s as [l p u d cl un dd]. destruct L as [a r ca cr lm clm dv rb w ld aj bm].
-  unfold Inv in HI; cbn in HI. destruct HI as (Hd & Hcl & Hclr & Hcw & Hun & Hun2 & Hw & Hur & HS).
-  cbn in Hld. subst ld dd cl. cbn in Hok.
+  destruct s as [l p u d cl un dd]. destruct L as [a r ca cr lm clm dv rb w ld aj bm sk cd].
+  unfold Inv in HI; cbn in HI. destruct HI as (Hd & Hcl & Hclr & Hcw & Hun & Hun2 & Hw & Hur & Hsk & Hcd & HS).
+  cbn in Hld. subst ld dd cl sk cd. cbn in Hok.
   unfold stepk in H. consts. rewrite (u32_small size) in H by lia. rewrite (u32_small pad) in H by lia.
   replace ((pad >? size) || (size >=? 16777216)) with false in H by lia.
   rewrite tr_onData_eq in H by (cbn; dlia). cbn [unacked climit limit pd pu delta dead] in H.
@@ -399,7 +408,7 @@ Lemma adv_bound cfg ops s L : fin cfg ops = Some (s, L) -> ldead L = false ->
   win L <= 2147483647 + 16777216 /\ (bumped L = false -> win L <= 2147483647).
 Proof.
   intros H Hl. apply fin_inv in H. unfold Inv in H.
-  destruct H as (Hd & Hcl & Hclr & Hcw & Hun & Hun2 & Hw & Hur & HS).
+  destruct H as (Hd & Hcl & Hclr & Hcw & Hun & Hun2 & Hw & Hur & Hsk & Hcd & HS).
   specialize (HS Hl). unfold SInv in HS.
   destruct HS as (H1 & H2 & H3 & H4 & H5 & H6 & H7 & H8 & H9 & H10 & H11 & H12 & H13).
   split; [lia|]. intros Hb. specialize (H13 Hb). lia.
@@ -411,7 +420,7 @@ Lemma restored cfg ops s L : fin cfg ops = Some (s, L) -> ldead L = false ->
   (pu s = 0 \/ pu s < lim L / 4).
 Proof.
   intros H Hl He. apply fin_inv in H. unfold Inv in H.
-  destruct H as (Hd & Hcl & Hclr & Hcw & Hun & Hun2 & Hw & Hur & HS).
+  destruct H as (Hd & Hcl & Hclr & Hcw & Hun & Hun2 & Hw & Hur & Hsk & Hcd & HS).
   specialize (HS Hl). unfold SInv in HS.
   destruct HS as (H1 & H2 & H3 & H4 & H5 & H6 & H7 & H8 & H9 & H10 & H11 & H12 & H13).
   clear Hun2 Hcw Hclr. rewrite H1 in H10, H9, H8, H13, H6.
@@ -425,9 +434,9 @@ Lemma large_read_granted cfg ops s L n o s' L' :
   Z.min (Z.min n 2147483647) (2147483647 - lim L' / 4) - (deliv L' - readb L') <= win L'.
 Proof.
   intros Hf Hld Hok H HL. apply fin_inv in Hf. rename Hf into HI.
-  destruct s as [l p u d cl un dd]. destruct L as [a r ca cr lm clm dv rb w ld aj bm].
-  unfold Inv in HI; cbn in HI. destruct HI as (Hd & Hcl & Hclr & Hcw & Hun & Hun2 & Hw & Hur & HS).
-  cbn in Hld. subst ld dd cl. cbn in Hok. consts.
+  destruct s as [l p u d cl un dd]. destruct L as [a r ca cr lm clm dv rb w ld aj bm sk cd].
+  unfold Inv in HI; cbn in HI. destruct HI as (Hd & Hcl & Hclr & Hcw & Hun & Hun2 & Hw & Hur & Hsk & Hcd & HS).
+  cbn in Hld. subst ld dd cl sk cd. cbn in Hok. consts.
   unfold stepk in H. rewrite (u32_small n) in H by lia. cbn [dead] in H.
   specialize (HS eq_refl). unfold SInv in HS; cbn in HS.
   destruct HS as (H1 & H2 & H3 & H4 & H5 & H6 & H7 & H8 & H9 & H10 & H11 & H12 & H13). subst l.
@@ -440,7 +449,7 @@ Lemma conn_window cfg ops s L : fin cfg ops = Some (s, L) ->
   cwin L <= clim L /\ clim L <= 2147483647 /\ 3 * clim L < 4 * cwin L.
 Proof.
   intros H. apply fin_inv in H. unfold Inv in H.
-  destruct H as (Hd & Hcl & Hclr & Hcw & Hun & Hun2 & Hw & Hur & HS).
+  destruct H as (Hd & Hcl & Hclr & Hcw & Hun & Hun2 & Hw & Hur & Hsk & Hcd & HS).
   clear HS. rewrite Hcl in Hcw, Hun2. split; [lia|]. split; [lia|]. dlia.
 Qed.
 
@@ -461,5 +470,28 @@ Lemma restored_literal_refuted :
                       win L = lim L - 100.
 Proof.
   exists [65535; 65535], [[1; 100; 0]; [2; 100]; [3; 100]].
+  eexists. eexists. split; [vm_compute; reflexivity|]. vm_compute. repeat split; reflexivity.
+Qed.
+
+(* Configured connection window 1 MiB (InitialConnWindowSize; the dynamic window stays on and the
+   BDP estimator starts from 65535): the first BDP update updateFlowControl(131070) makes
+   trInFlow.newLimit return uint32(131070 - 1048576) = 4294049790, which is enqueued as the
+   increment of a connection-level WINDOW_UPDATE. *)
+Lemma conn_increment_refuted :
+  exists cfg ops s L, finp cfg ops = Some (s, L) /\ cdead L = true /\
+    run cfg ops = Some [[4294049790; 1; 131070; 131070; 0; 0; 0; 131070; 0]].
+Proof.
+  exists [65535; 1048576], [[4; 131070]].
+  eexists. eexists. split; [vm_compute; reflexivity|]. vm_compute. split; reflexivity.
+Qed.
+
+(* Configured stream window 1 MiB: 200000 bytes arrive and are read (no update: 200000 < 1 MiB/4);
+   a BDP update lowers the window to 131070 (SETTINGS decrease of 917506): the peer's window is
+   -68930; the next read request (5 bytes) is granted 5: still negative, nothing to read. *)
+Lemma shrink_stall_refuted :
+  exists cfg ops s L, finp cfg ops = Some (s, L) /\ ldead L = false /\ sshrunk L = true /\
+    deliv L = readb L /\ want L = 5 /\ win L = -68925.
+Proof.
+  exists [1048576; 65535], [[1; 200000; 0]; [2; 200000]; [3; 200000]; [4; 131070]; [2; 5]].
   eexists. eexists. split; [vm_compute; reflexivity|]. vm_compute. repeat split; reflexivity.
 Qed.
